@@ -3,10 +3,10 @@ from __future__ import annotations
 
 import ast
 
-from .. import memo
+from .. import memo, shape
 from ..flow import call_name, dotted, norm, writes_in
 from ..index import AnalysisError, ClassInfo, walk_local
-from ..lib import cfg_of, defs_of, edge_leads_only_to_raise, live, nodes_calling, nodes_with, witness
+from ..lib import cfg_of, defs_of, edge_leads_only_to_raise, find, has, live, nodes_calling, nodes_with, witness
 
 PD = "pint.facets.plain.definitions"
 PR = "pint.facets.plain.registry"
@@ -35,6 +35,90 @@ LATENT = {
 }
 
 
+# ---------------------------------------------------------------- role helpers (no name of a local variable below)
+def loop_source(name_node, fn):
+    """(iterable expression, position in the loop target or None) of the for loop / comprehension that binds the name
+    used at `name_node`; None if the name is not a loop variable."""
+    cur = name_node
+    while cur is not None and cur is not fn:
+        par = getattr(cur, "_parent", None)
+        gens = []
+        if isinstance(par, (ast.For, ast.AsyncFor)):
+            gens = [(par.target, par.iter)]
+        elif isinstance(par, (ast.ListComp, ast.SetComp, ast.GeneratorExp, ast.DictComp)):
+            gens = [(g.target, g.iter) for g in par.generators]
+        for tgt, it in gens:
+            if isinstance(tgt, ast.Name) and tgt.id == name_node.id:
+                return it, None
+            if isinstance(tgt, (ast.Tuple, ast.List)):
+                for i, t in enumerate(tgt.elts):
+                    if isinstance(t, ast.Name) and t.id == name_node.id:
+                        return it, i
+        cur = par
+    return None
+
+
+def origin(e, fn, depth: int = 5) -> str:
+    """Where a value comes from, as text: temporaries are replaced by their dominating definitions and a loop variable
+    by `<iterable>[*]` (`for k in self.aliases: f(k)` -> `self.aliases[*]`; `for i, r in enumerate(self.rules, 1):
+    f(r.x)` -> `self.rules[*].x`).  Anything else is written as it stands."""
+    if isinstance(e, ast.Name) and isinstance(e.ctx, ast.Load) and depth > 0:
+        v = shape.dominating_def(e, fn)
+        if v is not None:
+            return origin(v, fn, depth - 1)
+        src = loop_source(e, fn)
+        if src is not None:
+            it, pos = src
+            if pos is None:
+                return origin(it, fn, depth - 1) + "[*]"
+            if isinstance(it, ast.Call) and call_name(it) == "enumerate" and it.args and pos == 1:
+                return origin(it.args[0], fn, depth - 1) + "[*]"
+            if isinstance(it, ast.Call) and call_name(it) == "items" and isinstance(it.func, ast.Attribute) and not it.args:
+                return origin(it.func.value, fn, depth - 1) + (".keys()[*]" if pos == 0 else ".values()[*]")
+            return origin(it, fn, depth - 1) + f"[*][{pos}]"
+        return e.id
+    if isinstance(e, ast.Attribute):
+        return origin(e.value, fn, depth) + "." + e.attr
+    if isinstance(e, ast.Call) and isinstance(e.func, ast.Name) and e.func.id in ("tuple", "list", "sorted", "set", "iter") and len(e.args) == 1 and not e.keywords:
+        return origin(e.args[0], fn, depth)
+    return shape.rnorm(e, fn)
+
+
+def last_field(org: str) -> str:
+    """the attribute an origin text ends with (`self.rules[*].new_unit_name` -> new_unit_name, `self.aliases[*]` -> aliases)"""
+    return org.replace("[*]", "").rsplit(".", 1)[-1]
+
+
+def ctor_arg(call, pos: int, name: str):
+    """argument of a constructor call given positionally at `pos` or by keyword `name`"""
+    if len(call.args) > pos and not any(isinstance(a, ast.Starred) for a in call.args[:pos + 1]):
+        return call.args[pos]
+    for k in call.keywords:
+        if k.arg == name:
+            return k.value
+    return None
+
+
+def derives_from(fi, e, *calls) -> bool:
+    """the value of `e` is computed (on some path, through any temporaries) by calls of all the given names; a mapping
+    filled by item assignment (`d[k] = v`) derives from the stored values as well"""
+    dfs = defs_of(fi)
+    roots = set(dfs.roots(e))
+    reach, todo = set(), [x.id for x in ast.walk(e) if isinstance(x, ast.Name)]
+    while todo:
+        nm = todo.pop()
+        if nm in reach:
+            continue
+        reach.add(nm)
+        for (v, k, st) in dfs.defs.get(nm, []):
+            if v is not None:
+                todo += [x.id for x in ast.walk(v) if isinstance(x, ast.Name)]
+        for a in walk_local(fi.node):
+            if isinstance(a, ast.Assign) and len(a.targets) == 1 and isinstance(a.targets[0], ast.Subscript) and isinstance(a.targets[0].value, ast.Name) and a.targets[0].value.id == nm:
+                roots |= set(dfs.roots(a.value))
+                todo += [x.id for x in ast.walk(a.value) if isinstance(x, ast.Name)]
+    return all(f"call:{c}" in roots for c in calls)
+
 
 def parser_entry_rule(ck, ix):
     """Every way text reaches the definition parser (file, string, list of lines, define()) is parsed with the
@@ -59,7 +143,7 @@ def parser_entry_rule(ck, ix):
                  "files and strings are parsed with the same parser class, config, cache and options", f"parse_file and parse_string disagree: {calls['parse_file']} vs {calls['parse_string']}")
     init = ix.func(PR, "GenericPlainRegistry.__init__")
     dp = [c for c in walk_local(init.node) if isinstance(c, ast.Call) and call_name(c) == "DefParser"]
-    ok = len(dp) == 1 and dp[0].args and norm(dp[0].args[0]).endswith("ParserConfig(non_int_type)")
+    ok = len(dp) == 1 and dp[0].args and shape.rnorm(dp[0].args[0], init.node).endswith("ParserConfig(non_int_type)")
     ck.check(bool(ok), "G-PROV", "Registry.__init__|parser-config-carries-non_int_type", init.loc(dp[0]) if dp else init.loc(), "DefParser(ParserConfig(non_int_type), ...)", "the registry's definition parser is not configured with the registry's non_int_type")
     for q in ("GenericPlainRegistry.define", "GenericPlainRegistry.load_definitions"):
         f = ix.func(PR, q)
@@ -74,8 +158,9 @@ def parser_entry_rule(ck, ix):
     f = ix.func(BD, "ParserConfig.to_units_container")
     ck.analysed(f)
     cfg = cfg_of(f)
-    gates = [n.id for n in cfg.nodes if n.kind == "test" and norm(n.ast) in ("v.scale != 1", "1 != v.scale", "not v.scale == 1")]
-    ck.check(bool(gates) and all(edge_leads_only_to_raise(cfg, g, "t") is None for g in gates), "G-DOM", "ParserConfig.to_units_container|scale-must-be-one", f.loc(), "a numeric factor in a units/dimension container raises", "to_units_container no longer rejects a container with a numeric factor (scale != 1)")
+    scale_is_one = lambda a_: isinstance(a_, ast.Compare) and isinstance(a_.ops[0], ast.Eq) and sorted([shape.rnorm(a_.left, f.node), shape.rnorm(a_.comparators[0], f.node)]) == sorted(["self.to_scaled_units_container(s).scale", "1"])
+    gates = shape.guard_edges(cfg, scale_is_one, want=False)          # edges on which the parsed container is known to carry a factor
+    ck.check(bool(gates) and all(edge_leads_only_to_raise(cfg, g, lab) is None for (g, lab) in gates), "G-DOM", "ParserConfig.to_units_container|scale-must-be-one", f.loc(), "a numeric factor in a units/dimension container raises", "to_units_container no longer rejects a container with a numeric factor (scale != 1)")
     f = ix.func(BD, "ParserConfig.to_dimension_container")
     ck.analysed(f)
     defs = defs_of(f)
@@ -85,10 +170,16 @@ def parser_entry_rule(ck, ix):
         ck.check("call:to_units_container" in roots and "call:to_scaled_units_container" not in roots, "G-PROV", "ParserConfig.to_dimension_container|scale-checked-container", f.loc(r), "built from the scale-checked container",
                  f"the dimension container derives from {sorted(x for x in roots if x.startswith('call:'))}: it must come from to_units_container (which rejects numeric factors); `[area] = 2 * [length] ** 2` would load with the 2 dropped")
     cfg = cfg_of(f)
-    g = [n.id for n in cfg.nodes if n.kind == "test" and norm(n.ast) == "invalid"]
-    ck.check(bool(g) and all(edge_leads_only_to_raise(cfg, x, "t") is None for x in g), "G-DOM", "ParserConfig.to_dimension_container|invalid-names-raise", f.loc(), "non-dimension names raise", "to_dimension_container no longer raises for names that are not [dimension] names")
+    def names_failing_the_dimension_test(a_):
+        """the collection of keys for which errors.is_valid_dimension_name is false (whatever local holds it)"""
+        if not isinstance(a_, (ast.Name, ast.Call)):
+            return False
+        return any(isinstance(c_, ast.Call) and call_name(c_) == "filterfalse" and c_.args and norm(c_.args[0]).endswith("is_valid_dimension_name") for c_ in ast.walk(shape.resolve(a_, f.node)))
+    g = shape.guard_edges(cfg, names_failing_the_dimension_test, want=True)
+    ck.check(bool(g) and all(edge_leads_only_to_raise(cfg, x, lab) is None for (x, lab) in g), "G-DOM", "ParserConfig.to_dimension_container|invalid-names-raise", f.loc(), "non-dimension names raise", "to_dimension_container no longer raises for names that are not [dimension] names")
     f = ix.func(BD, "ParserConfig.to_scaled_units_container")
-    ck.check("ParserHelper.from_string(s, self.non_int_type)" in norm(f.node), "G-PROV", "ParserConfig.to_scaled_units_container|registry-numeric-type", f.loc(), "numbers read in the configured numeric type", "to_scaled_units_container no longer passes self.non_int_type")
+    rets = shape.returns_of(f.node)
+    ck.check(bool(rets) and all(shape.rnorm(r.value, f.node) == "ParserHelper.from_string(s, self.non_int_type)" for r in rets), "G-PROV", "ParserConfig.to_scaled_units_container|registry-numeric-type", f.loc(), "numbers read in the configured numeric type", "to_scaled_units_container no longer passes self.non_int_type")
 
 def run(ck, ix, tier):
     ck.rule("G-ERR", "error objects are raised/returned, validators check the field they name, constructors get a valid arity")
@@ -118,14 +209,16 @@ def run(ck, ix, tier):
             # validator / field agreement
             for c in walk_local(pi.node):
                 if isinstance(c, ast.Call) and call_name(c).startswith("is_valid_") and len(c.args) == 1:
-                    fld = call_name(c).rsplit("_", 1)[1]
+                    kind, fld = call_name(c)[len("is_valid_"):].rsplit("_", 1) if "_" in call_name(c)[len("is_valid_"):] else ("", call_name(c).rsplit("_", 1)[1])
                     arg = norm(c.args[0])
+                    org = origin(c.args[0], pi.node)       # e.g. self.name, self.aliases[*], self.rules[*].new_unit_name
                     if fld == "name":
-                        ok = arg in ("self.name", "k", "rule.new_unit_name", "rule.old_unit_name") or arg.endswith("name")
+                        # the name field, a field / collection of names, or (contexts) the alternative names of the context
+                        ok = last_field(org).endswith(("name", "names")) or (kind == "context" and org == "self.aliases[*]")
                     elif fld == "symbol":
-                        ok = arg == "self.defined_symbol"
+                        ok = org == "self.defined_symbol"
                     elif fld == "alias":
-                        ok = arg in ("alias", "a")
+                        ok = org == "self.aliases[*]"
                     else:
                         ok = True
                     ck.check(ok, "G-ERR", f"{qual}|validator-field-agreement|{call_name(c)}", pi.loc(c), f"{call_name(c)}({arg})",
@@ -133,13 +226,16 @@ def run(ck, ix, tier):
                 if isinstance(c, ast.Call) and call_name(c) in ("filterfalse", "map") and len(c.args) == 2 and norm(c.args[0]).startswith("errors.is_"):
                     ck.ok("G-ERR", f"{qual}|validator-over-reference|{norm(c.args[0])[-25:]}", pi.loc(c), f"{norm(c)[:70]}")
     ck.floor("G-ERR", n_post, 4, "__post_init__ validators of definition dataclasses")
-    for q, inv in (("UnitDefinition.__post_init__", ["is_valid_unit_name(self.name)", "is_valid_unit_symbol(self.defined_symbol)", "is_valid_unit_alias(alias)"]),
-                   ("PrefixDefinition.__post_init__", ["is_valid_prefix_name(self.name)", "is_valid_prefix_symbol(self.defined_symbol)", "is_valid_prefix_alias(alias)"]),
-                   ("AliasDefinition.__post_init__", ["is_valid_unit_name(self.name)", "is_valid_unit_alias(alias)"]),
-                   ("DimensionDefinition.__post_init__", ["is_valid_dimension_name(self.name)"]), ("DerivedDimensionDefinition.__post_init__", ["is_valid_dimension_name(self.name)"])):
+    # inventory: (key text, validator, what it must be applied to: a field, or `[*]` = every element of a field)
+    EACH_ALIAS = "self.aliases[*]"
+    for q, inv in (("UnitDefinition.__post_init__", [("is_valid_unit_name(self.name)", "self.name"), ("is_valid_unit_symbol(self.defined_symbol)", "self.defined_symbol"), ("is_valid_unit_alias(alias)", EACH_ALIAS)]),
+                   ("PrefixDefinition.__post_init__", [("is_valid_prefix_name(self.name)", "self.name"), ("is_valid_prefix_symbol(self.defined_symbol)", "self.defined_symbol"), ("is_valid_prefix_alias(alias)", EACH_ALIAS)]),
+                   ("AliasDefinition.__post_init__", [("is_valid_unit_name(self.name)", "self.name"), ("is_valid_unit_alias(alias)", EACH_ALIAS)]),
+                   ("DimensionDefinition.__post_init__", [("is_valid_dimension_name(self.name)", "self.name")]), ("DerivedDimensionDefinition.__post_init__", [("is_valid_dimension_name(self.name)", "self.name")])):
         f = ix.func(PD, q)
-        for frag in inv:
-            ck.check(frag in norm(f.node), "G-ERR", f"{q}|validates|{frag}", f.loc(), f"{frag} is checked", f"{q} no longer checks `{frag}`")
+        applied = {(call_name(c), origin(c.args[0], f.node)) for c in walk_local(f.node) if isinstance(c, ast.Call) and call_name(c).startswith("is_valid_") and len(c.args) == 1}
+        for frag, target in inv:
+            ck.check((frag.split("(")[0], target) in applied, "G-ERR", f"{q}|validates|{frag}", f.loc(), f"{frag} is checked", f"{q} no longer checks `{frag}` ({frag.split('(')[0]} applied to {target})")
     f = ix.func(PD, "UnitDefinition.__post_init__")
     ck.check("Cannot mix dimensions and units in the same definition" in norm(f.node) and "raise self.def_err" in norm(f.node), "G-ERR", "UnitDefinition.__post_init__|mixed-reference-rejected", f.loc(), "mixed dimension/unit references raise", "mixed dimension/unit references are no longer rejected")
     # validators themselves
@@ -183,13 +279,23 @@ def run(ck, ix, tier):
     f = ix.func(TP + ".defparser", "DefParser.iter_parsed_project")
     ck.analysed(f)
     cfg = cfg_of(f)
-    t = [n.id for n in cfg.nodes if n.kind == "test" and norm(n.ast) == "isinstance(stmt, common.DefinitionSyntaxError)"]
-    ck.check(bool(t) and all(edge_leads_only_to_raise(cfg, x, "t", also_forbid=[n.id for n in cfg.nodes if n.kind == "for"]) is None for x in t), "G-ERR", "iter_parsed_project|syntax-error-statements-raised", f.loc(),
+    # role: a "statement" = the element of the loop over the blocks of the parsed project (under any name); "raised" = from
+    # there neither the next iteration of any loop nor the normal exit can be reached
+    BLOCKS = "parsed_project.iter_blocks()"
+    is_stmt = lambda x: origin(x, f.node) == BLOCKS + "[*]"
+    blocks_loops = [l for l in walk_local(f.node) if isinstance(l, ast.For) and origin(l.iter, f.node) == BLOCKS]
+    ck.floor("G-ERR", len(blocks_loops), 1, "loop over parsed_project.iter_blocks() in iter_parsed_project")
+    for_nodes = [n.id for n in cfg.nodes if n.kind == "for"]
+    is_syntax_error = lambda a_: isinstance(a_, ast.Call) and shape.match("isinstance(_X, common.DefinitionSyntaxError)", a_) is not None and is_stmt(a_.args[0])
+    t = shape.guard_edges(cfg, is_syntax_error, want=True)
+    ck.check(bool(t) and all(edge_leads_only_to_raise(cfg, x, lab, also_forbid=for_nodes) is None for (x, lab) in t), "G-ERR", "iter_parsed_project|syntax-error-statements-raised", f.loc(),
              "a syntax-error statement is raised", "a syntax-error statement in the parsed project is skipped instead of raised (ill-formed lines silently ignored)")
-    loops = [l for l in walk_local(f.node) if isinstance(l, ast.For) and norm(l.iter) == "stmt.errors"]
-    ck.check(bool(loops) and all(isinstance(l.body[-1], ast.Raise) for l in loops), "G-ERR", "iter_parsed_project|block-errors-raised", f.loc(), "errors collected in a block are raised", "errors collected inside a directive block are no longer raised")
-    trys = [tr for tr in walk_local(f.node) if isinstance(tr, ast.Try) and any(isinstance(c, ast.Call) and call_name(c) == "derive_definition" for s_ in tr.body for c in ast.walk(s_))]
-    ok = bool(trys) and all(any(isinstance(h.body[-1], ast.Raise) for h in tr.handlers) for tr in trys)
+    loops = [n.id for n in cfg.nodes if n.kind == "for" and origin(n.stmt.iter, f.node) == BLOCKS + "[*].errors"]
+    ck.check(bool(loops) and all(edge_leads_only_to_raise(cfg, l, "t", also_forbid=for_nodes) is None for l in loops), "G-ERR", "iter_parsed_project|block-errors-raised", f.loc(), "errors collected in a block are raised", "errors collected inside a directive block are no longer raised")
+    derives = lambda c: isinstance(c, ast.Call) and call_name(c) == "derive_definition" and isinstance(c.func, ast.Attribute) and is_stmt(c.func.value)
+    trys = [tr for tr in walk_local(f.node) if isinstance(tr, ast.Try) and any(derives(c) for s_ in tr.body for c in ast.walk(s_))]
+    handlers = [i for tr in trys for h_ in tr.handlers for i in cfg.nodes_for_ast(h_)]
+    ok = bool(trys) and bool(handlers) and all(edge_leads_only_to_raise(cfg, h_, "n", also_forbid=for_nodes) is None for h_ in handlers)
     ck.check(ok, "G-ERR", "iter_parsed_project|derive-failure-raised", f.loc(), "a failing derive_definition is re-raised as DefinitionSyntaxError", "a failing derive_definition is swallowed")
     skip = [a for a in ix.cls(TP + ".defparser", "DefParser").node.body if isinstance(a, (ast.Assign, ast.AnnAssign)) and "skip_classes" in norm(a)]
     if skip:
@@ -216,15 +322,62 @@ def run(ck, ix, tier):
             ck.check(not bad, "G-PROV", f"{fn.qualname.split('::')[1]}|numbers-only-through-config", fn.loc(bad[0]) if bad else fn.loc(), "no float()/complex()/int()/eval() in a classifier",
                      f"`{norm(bad[0]) if bad else ''}` converts a number of a definition outside ParserConfig (registry numeric type lost)") if fn.name.startswith("from_string") else None
     ck.floor("G-ERR", n_cls, 5, "DefinitionSyntaxError constructions in classifiers")
-    # numbers through the config
-    for mod, q, frag in ((TP + ".plain", "PrefixDefinition.from_string_and_config", "value = config.to_number(value)"), (TP + ".plain", "UnitDefinition.from_string_and_config", "key.strip(): config.to_number(value)"),
-                         (TP + ".plain", "UnitDefinition.from_string_and_config", "converter = config.to_scaled_units_container(converter)"), (TP + ".context", "BeginContext.from_string_and_config", "str(k).strip(): config.to_number(v)"),
-                         (TP + ".plain", "DerivedDimensionDefinition.from_string_and_config", "reference = config.to_dimension_container(value)"), (TP + ".context", "_from_string_and_context_sep", "config.to_dimension_container(s)")):
+    # numbers through the config (by role: what reaches the constructor / converter was produced by a ParserConfig method)
+    def cls_calls(fn_):
+        return [c for c in ast.walk(fn_.node) if isinstance(c, ast.Call) and isinstance(c.func, ast.Name) and c.func.id == "cls"]
+
+    def field_from(fn_, pos, field, *calls):
+        """constructor field (positional `pos` / keyword `field`) of every `cls(...)` is computed by calls of these names"""
+        cs = cls_calls(fn_)
+        ck.floor("G-PROV", len(cs), 1, f"cls(...) construction in {fn_.name}")
+        args = [ctor_arg(c, pos, field) for c in cs]
+        return all(a is not None and derives_from(fn_, a, *calls) for a in args)
+
+    def field_via(fn_, pos, field, *methods):
+        """... by config.<method>(...) (and by no other object's method of that name)"""
+        named = [c for c in ast.walk(fn_.node) if isinstance(c, ast.Call) and call_name(c) in methods]
+        return field_from(fn_, pos, field, *methods) and all(isinstance(c.func, ast.Attribute) and norm(c.func.value) == "config" for c in named)
+
+    def number_dict(fn_, key_pat):
+        """a mapping `{<key_pat of K>: config.to_number(V) for K, V in ...}` (comprehension, or `d[<key_pat of K>] = config.to_number(V)` in a loop over pairs K, V)"""
+        for d in ast.walk(fn_.node):
+            if isinstance(d, ast.DictComp) and len(d.generators) == 1:
+                tgt, key, val = d.generators[0].target, d.key, d.value
+            elif isinstance(d, ast.Assign) and len(d.targets) == 1 and isinstance(d.targets[0], ast.Subscript):
+                loop = getattr(d, "_parent", None)
+                while loop is not None and not isinstance(loop, ast.For):
+                    loop = getattr(loop, "_parent", None)
+                if loop is None:
+                    continue
+                tgt, key, val = loop.target, d.targets[0].slice, d.value
+            else:
+                continue
+            if isinstance(tgt, ast.Tuple) and len(tgt.elts) == 2 and all(isinstance(x, ast.Name) for x in tgt.elts):
+                if shape.match(key_pat, key) == {"_K": tgt.elts[0].id} and shape.match("config.to_number(_V)", val) == {"_V": tgt.elts[1].id}:
+                    return True
+        return False
+
+    def unit_modifiers(fn_):
+        fa = [c for (c, b, _f) in find(ix, fn_, "Converter.from_arguments(*_R, **_M)")]
+        return bool(fa) and number_dict(fn_, "_K.strip()") and all(any(k.arg is None and derives_from(fn_, k.value, "to_number") for k in c.keywords) for c in ast.walk(fn_.node) if isinstance(c, ast.Call) and norm(c.func) == "Converter.from_arguments")
+
+    def unit_converter(fn_):
+        cs = [c for c in ast.walk(fn_.node) if isinstance(c, ast.Call) and shape.match("config.to_scaled_units_container(_X)", c) is not None]
+        return bool(cs) and all("s" in defs_of(fn_).roots(c.args[0]) for c in cs) and field_via(fn_, 4, "reference", "to_scaled_units_container")
+    for mod, q, frag, decide in ((TP + ".plain", "PrefixDefinition.from_string_and_config", "value = config.to_number(value)", lambda fn_: field_via(fn_, 1, "value", "to_number")),
+                                 (TP + ".plain", "UnitDefinition.from_string_and_config", "key.strip(): config.to_number(value)", unit_modifiers),
+                                 (TP + ".plain", "UnitDefinition.from_string_and_config", "converter = config.to_scaled_units_container(converter)", unit_converter),
+                                 (TP + ".context", "BeginContext.from_string_and_config", "str(k).strip(): config.to_number(v)", lambda fn_: number_dict(fn_, "str(_K).strip()") and field_via(fn_, 2, "defaults", "to_number")),
+                                 (TP + ".plain", "DerivedDimensionDefinition.from_string_and_config", "reference = config.to_dimension_container(value)", lambda fn_: field_via(fn_, 1, "reference", "to_dimension_container")),
+                                 (TP + ".context", "_from_string_and_context_sep", "config.to_dimension_container(s)", lambda fn_: field_via(fn_, 0, "src", "to_dimension_container") and field_via(fn_, 1, "dst", "to_dimension_container"))):
         fn = ix.func(mod, q)
         ck.analysed(fn)
-        ck.check(frag in norm(fn.node), "G-PROV", f"{q}|{frag[:40]}", fn.loc(), f"`{frag}`", f"{q} no longer reads its value with `{frag}` (numbers must be read in the registry's numeric type by ParserConfig)")
+        ck.check(bool(decide(fn)), "G-PROV", f"{q}|{frag[:40]}", fn.loc(), f"`{frag}`", f"{q} no longer reads its value with `{frag}` (numbers must be read in the registry's numeric type by ParserConfig)")
     fn = ix.func(TP + ".plain", "UnitDefinition.from_string_and_config")
-    ck.check("Converter.from_arguments(scale=converter.scale, **modifiers)" in norm(fn.node) and "reference = UnitsContainer(converter)" in norm(fn.node), "G-PROV", "UnitDefinition.from_string|scale-modifiers-reference", fn.loc(),
+    # scale and reference both come from the one parsed right-hand side; the modifiers are handed to the converter; both reach cls(...)
+    ok = has(ix, fn, "Converter.from_arguments(scale=config.to_scaled_units_container(_X).scale, **_M)") and has(ix, fn, "UnitsContainer(config.to_scaled_units_container(_X))") \
+        and field_from(fn, 3, "converter", "from_arguments") and field_from(fn, 4, "reference", "UnitsContainer")
+    ck.check(ok, "G-PROV", "UnitDefinition.from_string|scale-modifiers-reference", fn.loc(),
              "scale, modifiers and reference all come from the parsed right-hand side", "the unit converter/reference are no longer built from the parsed right-hand side")
 
     # ------------------------------------------------------------ (b) adders for every statement class
@@ -348,11 +501,29 @@ def run(ck, ix, tier):
         ck.check(not missing, "G-EXH", f"classifier-guard|{q}", fn.loc(), f"answers only when `{frag}`",
                  f"{q} can answer although `{' / '.join(missing)}` is not established: it answers for lines of another kind (or none)")
     fn = ix.func(TP + ".context", "ForwardRelation.from_string_and_config")
-    ck.check("'->')" in norm(fn.node), "G-EXH", "classifier-guard|ForwardRelation.separator", fn.loc(), "-> separator", "ForwardRelation no longer splits on '->'")
+    ck.check([shape.rnorm(r.value, fn.node) for r in shape.returns_of(fn.node)] == ["_from_string_and_context_sep(cls, s, config, '->')"], "G-EXH", "classifier-guard|ForwardRelation.separator", fn.loc(), "-> separator", "ForwardRelation no longer splits on '->'")
     fn = ix.func(TP + ".context", "BidirectionalRelation.from_string_and_config")
-    ck.check("'<->')" in norm(fn.node), "G-EXH", "classifier-guard|BidirectionalRelation.separator", fn.loc(), "<-> separator", "BidirectionalRelation no longer splits on '<->'")
+    ck.check([shape.rnorm(r.value, fn.node) for r in shape.returns_of(fn.node)] == ["_from_string_and_context_sep(cls, s, config, '<->')"], "G-EXH", "classifier-guard|BidirectionalRelation.separator", fn.loc(), "<-> separator", "BidirectionalRelation no longer splits on '<->'")
     fn = ix.func(TP + ".context", "_from_string_and_context_sep")
-    ck.check("return cls(src, dst, eq.strip())" in norm(fn.node) and "src, dst = (config.to_dimension_container(s) for s in parts)" in norm(fn.node), "G-PROV", "relation|src-dst-equation-order", fn.loc(), "relation = (src, dst, equation)", "the relation fields are no longer (src, dst, equation) in source order")
+    def containers_in_order(text):
+        """`text` maps config.to_dimension_container over the separator-separated parts of what precedes the ':' (in order)"""
+        g = ast.parse(text, mode="eval").body
+        while isinstance(g, ast.Call) and isinstance(g.func, ast.Name) and g.func.id in ("tuple", "list") and len(g.args) == 1:
+            g = g.args[0]
+        parts = "s.split(':')[0].split(separator)"
+        if isinstance(g, (ast.GeneratorExp, ast.ListComp)) and len(g.generators) == 1 and not g.generators[0].ifs and isinstance(g.generators[0].target, ast.Name):
+            return shape.match("config.to_dimension_container(_V)", g.elt) == {"_V": g.generators[0].target.id} and norm(g.generators[0].iter) == parts
+        return shape.match(f"map(config.to_dimension_container, {parts})", g) is not None
+    def in_source_order(v):
+        """cls(<container of part 0>, <container of part 1>, <stripped text after ':'>), the parts converted one by one or by one mapping"""
+        b = shape.match("cls(_G[0], _G[1], _E)", v)
+        if b is not None and containers_in_order(b["_G"]):
+            return b["_E"] == "s.split(':')[1].strip()"
+        b = shape.match("cls(config.to_dimension_container(_P[0]), config.to_dimension_container(_P[1]), _E)", v)
+        return b is not None and b["_P"] == "s.split(':')[0].split(separator)" and b["_E"] == "s.split(':')[1].strip()"
+    built = [shape.resolve(r.value, fn.node) for r in shape.returns_of(fn.node) if not (isinstance(r.value, ast.Constant) and r.value.value is None)]
+    ck.floor("G-PROV", len(built), 1, "relation built by _from_string_and_context_sep")
+    ck.check(all(in_source_order(v) for v in built), "G-PROV", "relation|src-dst-equation-order", fn.loc(), "relation = (src, dst, equation)", "the relation fields are no longer (src, dst, equation) in source order")
 
     # ------------------------------------------------------------ adders store what they get
     fn = ix.func(PR, "GenericPlainRegistry._add_derived_dimension")
@@ -380,8 +551,8 @@ def run(ck, ix, tier):
              "base units are recorded and declare their dimensions", "base units no longer declare their dimensions on the fly")
     fn = ix.func(PR, "GenericPlainRegistry._helper_single_adder")
     cfgs = cfg_of(fn)
-    rd = [n.id for n in cfgs.nodes if n.kind == "test" and norm(n.ast) == "self._on_redefinition == 'raise'"]
-    ck.check(bool(rd) and all(edge_leads_only_to_raise(cfgs, x, "t") is None for x in rd), "G-ERR", "_helper_single_adder|redefinition-raise-mode-raises", fn.loc(), "on_redefinition='raise' raises RedefinitionError", "on_redefinition='raise' no longer raises")
+    rd = shape.guard_edges(cfgs, lambda a_: isinstance(a_, ast.Compare) and isinstance(a_.ops[0], ast.Eq) and sorted([norm(a_.left), norm(a_.comparators[0])]) == sorted(["self._on_redefinition", "'raise'"]), want=True)
+    ck.check(bool(rd) and all(edge_leads_only_to_raise(cfgs, x, lab) is None for (x, lab) in rd), "G-ERR", "_helper_single_adder|redefinition-raise-mode-raises", fn.loc(), "on_redefinition='raise' raises RedefinitionError", "on_redefinition='raise' no longer raises")
     fn = ix.func(PR, "GenericPlainRegistry._add_alias")
     ck.check(memo.alias_adder_facts(ix)[2], "G-ERR", "_add_alias|unknown-target-raises-KeyError", fn.loc(), "@alias of an unknown unit fails (KeyError)", "@alias no longer looks its target up")
 
@@ -391,8 +562,14 @@ def run(ck, ix, tier):
     fp_ = [g for g in ast.walk(fn.node) if isinstance(g, ast.FunctionDef) and g.name == "from_parsed_project"]
     ck.floor("G-MEMO-KEY", len(fp_), 1, "ParsedProjecHeader.from_parsed_project")
     for g in fp_:
-        src = norm(g)
-        ok = "for stmt in pp.iter_statements()" in src and "isinstance(stmt, fp.BOS)" in src and "stmt.content_hash" in src
+        # role: every `<V>.content_hash` that enters the key belongs to a loop / comprehension variable V that runs over all
+        # statements of the project and is known to be a begin-of-source statement there
+        def every_source(h_):
+            src_ = loop_source(h_.value, g) if isinstance(h_.value, ast.Name) else None
+            return src_ is not None and src_[1] is None and shape.rnorm(src_[0], g) == "pp.iter_statements()" \
+                and shape.holds_at(h_, g, lambda a_: shape.match(f"isinstance({h_.value.id}, fp.BOS)", a_) is not None, True)
+        hashes = [h_ for h_ in ast.walk(g) if isinstance(h_, ast.Attribute) and h_.attr == "content_hash"]
+        ok = bool(hashes) and all(every_source(h_) for h_ in hashes)
         ck.check(ok, "G-MEMO-KEY", "disk_cache|key-covers-every-loaded-source", fn.loc(g), "the build-cache key hashes the content of every loaded source (root file and imports)",
                  "the build-cache key no longer covers every begin-of-source statement of the parsed project: editing an imported file reuses a stale RegistryCache")
     fn = ix.func("pint.util", "solve_dependencies")
